@@ -534,6 +534,24 @@ func grpcStatusText(b *Backend) string {
 
 // buildResponse renders the backend script in the protocol of view.
 func buildResponse(sc *Scenario, v *BackendView) *builtResponse {
+	out := buildResponseInner(sc, v)
+	if sc.Backend.IdentityHeader && sc.Backend.Kind != "http_status" && sc.Backend.Kind != "raw" {
+		// a server that does not compress may say so: "identity" in its protocol's encoding header
+		key := "Content-Encoding"
+		switch {
+		case v.Protocol == ProtoGRPC || v.Protocol == ProtoGRPCWeb:
+			key = "Grpc-Encoding"
+		case v.Protocol == ProtoConnect && v.Sub == "stream":
+			key = "Connect-Content-Encoding"
+		}
+		if out.Header.Get(key) == "" {
+			out.Header.Set(key, "identity")
+		}
+	}
+	return out
+}
+
+func buildResponseInner(sc *Scenario, v *BackendView) *builtResponse {
 	b := &sc.Backend
 	out := &builtResponse{Status: 200, Header: http.Header{}, Trailer: http.Header{}}
 	for _, kv := range b.Headers {
